@@ -97,7 +97,32 @@ pub fn sequences(args: &[String], out: &mut Out) {
     }
 }
 
+/// every opcode byte through the builder and the iterator (the opcode tables have 256 entries)
+fn opcode_sweep(out: &mut Out) {
+    for b in 0u16..=255 {
+        let b = b as u8;
+        out.count("evaluations");
+        let case = json!({"opcode_byte": b});
+        let res = guard(|| {
+            let op = elements::opcodes::All::from(b);
+            let s = Builder::new().push_opcode(elements::opcodes::all::OP_DUP).push_opcode(op).into_script();
+            let ins: Vec<String> = s.instructions().map(|i| format!("{:?}", i.map(|x| match x { Instruction::Op(o) => format!("op{}", o.into_u8()), Instruction::PushBytes(p) => format!("push{}", p.len()) }))).collect();
+            let _ = format!("{:?} {} {:?}", op, s.asm(), op.classify(elements::opcodes::ClassifyContext::Legacy));
+            (op.into_u8(), s.to_bytes(), ins)
+        });
+        match res {
+            Err(p) => out.viol(&format!("C16/opcode/panic/{:#04x}", b), case, p),
+            Ok((back, bytes, ins)) => {
+                if back != b || bytes != vec![0x76, b] { out.viol(&format!("C16/opcode/byte-roundtrip/{:#04x}", b), case.clone(), format!("{:?}", bytes)); }
+                // an opcode that is not a push prefix is iterated as itself
+                if b >= 0x4f && ins != vec!["Ok(\"op118\")".to_string(), format!("Ok(\"op{}\")", b)] { out.viol(&format!("C16/opcode/iteration/{:#04x}", b), case, format!("{:?}", ins)); }
+            }
+        }
+    }
+}
+
 pub fn numbers(args: &[String], out: &mut Out) {
+    opcode_sweep(out);
     let cases = read_ndjson(&arg(args, "--cases").expect("--cases"));
     for c in &cases {
         out.count("distinct_cases");
